@@ -461,7 +461,9 @@ def frame_obligations(E, o, qual):
     fl = E.builtins['__fcntl_consts__']
     import os as _os
     bad = [e for e in E.effects if e[0] not in ALLOWED_EFFECTS]
-    E.oblige('%s/frame.world_effects_within_{open,flock,close,sleep}' % qual, len(bad) == 0, props={'C13', 'C02'},
+    # C12 too: "fully released" means the flock itself is dropped by flock(LOCK_UN) -- a lockf()/fcntl() in its place is a
+    # no-op on a flock, the OS lock then lives on in every duplicate of the descriptor (a forked child, os.dup)
+    E.oblige('%s/frame.world_effects_within_{open,flock,close,sleep}' % qual, len(bad) == 0, props={'C13', 'C02', 'C12'},
              detail='offending effects: %r' % ([b[0] for b in bad],))
     for e in E.effects:
         if e[0] == 'os.open':
